@@ -50,7 +50,21 @@ def _ds(vals, errs, name):
     return Dataset(np.array(vals, dtype=float), np.array(errs, dtype=float), bins=bins, name=name, what='flux')
 
 
+FLAVOUR = ['1d']      # '1d' (default) or '2d-nan': 2-d datasets, the failing one with a cell undefined on one side
+
+
+def _ds2(vals, errs, name):
+    from valjean.eponine.dataset import Dataset
+    bins = OrderedDict([('e', np.arange(3, dtype=float)), ('t', np.arange(3, dtype=float) * 10.0)])
+    return Dataset(np.array(vals, dtype=float).reshape(2, 2), np.array(errs, dtype=float).reshape(2, 2), bins=bins, name=name, what='flux')
+
+
 def _datasets(good):
+    if FLAVOUR[0] == '2d-nan':
+        ref = _ds2([1.0, 2.0, 3.0, 4.0], [0.1, 0.1, 0.1, 0.1], 'ref')
+        if good:
+            return ref, _ds2([1.01, 2.02, 2.97, 4.03], [0.1, 0.1, 0.1, 0.1], 'close')
+        return ref, _ds2([5.0, float('nan'), 9.0, 0.5], [0.1, 0.1, 0.1, 0.1], 'far')
     ref = _ds([1.0, 2.0, 3.0, 4.0], [0.1, 0.1, 0.1, 0.1], 'ref')
     if good:
         return ref, _ds([1.01, 2.02, 2.97, 4.03], [0.1, 0.1, 0.1, 0.1], 'close')
@@ -68,7 +82,7 @@ def build(kind, good):
     from valjean.cosette.task import TaskStatus
     ref, other = _datasets(good)
     if kind == 'equal':
-        same = _ds([1.0, 2.0, 3.0, 4.0], [0.2, 0.2, 0.2, 0.2], 'same')
+        same = (_ds if FLAVOUR[0] == '1d' else _ds2)([1.0, 2.0, 3.0, 4.0], [0.2, 0.2, 0.2, 0.2], 'same')
         return TestEqual(ref, same if good else other, name='equal', description='equality').evaluate()
     if kind == 'approx':
         return TestApproxEqual(ref, other, name='approx', description='approx', rtol=0.05).evaluate()
@@ -334,7 +348,11 @@ def corrupted_twins(batch):
 
 def replay_case(case):
     """Re-run an operation sequence on a fresh result and let TLC (ObserveTrace) judge the recorded trace."""
-    events = run_sequence(case['kind'], case['good'], case['ops'])
+    FLAVOUR[0] = case.get('flavour', '1d')
+    try:
+        events = run_sequence(case['kind'], case['good'], case['ops'])
+    finally:
+        FLAVOUR[0] = '1d'
     wd = tlc.workdir('c13r')
     _, bad = validate_batch([to_trace(1, case['kind'], case['good'], events)], wd, 'replay')
     if bad:
@@ -393,18 +411,22 @@ class _Runner:
         self.raised = {}
         self.drifted = set()
 
-    def run(self, kind, good, ops, source):
+    def run(self, kind, good, ops, source, flavour='1d'):
         ctx = self.ctx
-        events = run_sequence(kind, good, ops)
+        FLAVOUR[0] = flavour
+        try:
+            events = run_sequence(kind, good, ops)
+        finally:
+            FLAVOUR[0] = '1d'
         self.n += 1
-        case = dict(kind=kind, good=bool(good), ops=ops)
+        case = dict(kind=kind, good=bool(good), ops=ops, flavour=flavour)
         j = judge(kind, good, events)
         if j:
             ctx.violation(j[1], '%s [%s]' % (j[2], source), case, module=MODULE)
         for ev in events:
             if ev['exc']:
                 self.raised.setdefault((kind, ev['op'], ev['exc'].split(':')[0]), ev['exc'])
-        if kind in CLASSIFIED and not j:
+        if kind in CLASSIFIED and not j and flavour == '1d':
             # implementation-level model: predicted key set of the dictionary after every prefix
             for k in range(1, len(events)):
                 hk = _hkey(kind, good, ops[:k])
@@ -547,7 +569,8 @@ def run_c13(ctx):
     for n in range(n_random):
         kind, good = combos[n % len(combos)]
         ops = random_ops(rng, rng.randint(4, 12))
-        events = runner.run(kind, good, ops, 'random')
+        flavour = '2d-nan' if (n // len(combos)) % 2 == 1 and kind in ('equal', 'approx', 'student', 'bonferroni', 'holm', 'chi2') else '1d'
+        events = runner.run(kind, good, ops, 'random' if flavour == '1d' else 'random/2d-nan', flavour)
         traces.append((kind, good, ops, events))
         if any(o['op'] in VERB_OPS for o in ops[:-1]):
             ctx.distinct(_hkey(kind, good, ops))
